@@ -51,6 +51,7 @@ func namesElided(g *gram.Grammar) bool {
 func c10Child(c *mon.Child) {
 	if c.Batch == 0 {
 		c10ParseableRoot(c)
+		c10TokenNegation(c)
 	}
 	nInputs := c.N(50, 100)
 	nSpacings := c.N(8, 14)
